@@ -16,13 +16,15 @@ Inductive op :=
 | Insert (i : Z) (x : elt)
 | SetItem (i : Z) (x : elt)       (* x.f[i] = v ; IndexError when out of range *)
 | SetSlice (i j : Z) (vs : list elt)  (* x.f[i:j] = [...]  (step 1) *)
+| SetSliceIter (i j : Z) (vs : list elt)  (* x.f[i:j] = (v for v in ...)   the value is a one-shot iterator yielding vs *)
+| ExtendSelf                      (* x.f.extend(x.f) *)
 | Add (x : elt)
 | Update (vss : list (list elt)). (* x.f.update(it1, it2, ...) *)
 
 Definition applicable (k : kind) (o : op) : bool :=
   match k, o with
   | _, Assign _ | _, AssignSelf | _, IAug _ => true
-  | KList, Append _ | KList, Extend _ | KList, Insert _ _ | KList, SetItem _ _ | KList, SetSlice _ _ _ => true
+  | KList, Append _ | KList, Extend _ | KList, Insert _ _ | KList, SetItem _ _ | KList, SetSlice _ _ _ | KList, SetSliceIter _ _ _ | KList, ExtendSelf => true
   | KSet, Add _ | KSet, Update _ => true
   | _, _ => false
   end.
@@ -72,6 +74,8 @@ Definition py_step (k : kind) (o : op) (l : list elt) : list elt * bool :=
   | KList, Insert i x => (py_insert i x l, false)
   | KList, SetItem i x => match py_setitem i x l with Some l' => (l', false) | None => (l, true) end
   | KList, SetSlice i j vs => (py_setslice i j vs l, false)
+  | KList, SetSliceIter i j vs => (py_setslice i j vs l, false)   (* list.__setitem__ drains the iterator once *)
+  | KList, ExtendSelf => (l ++ l, false)                         (* list.extend(self) doubles the list *)
   | KSet, Add x => (set_add x l, false)
   | KSet, Update vss => (fold_left set_union vss l, false)
   | _, _ => (l, false)
